@@ -5,6 +5,7 @@ use crate::{
 };
 use reactive_graph::{
     owner::Storage,
+    signal::guards::WriteGuard,
     traits::{
         DefinedAt, IsDisposed, Notify, ReadUntracked, Track, UntrackableGuard,
         Write,
@@ -136,7 +137,14 @@ where
             trigger: value.get_trigger(value.path().into_iter().collect()),
             get_trigger: Arc::new(move |path| value.get_trigger(path)),
             read: Arc::new(move || value.reader().map(StoreFieldReader::new)),
-            write: Arc::new(move || value.writer().map(StoreFieldWriter::new)),
+            // like `Write for Store`: the store's raw writer only notifies the root's
+            // `children` trigger, so it is wrapped in a guard that notifies the store itself
+            // (`this`, which every reader of a descendant field tracks, and `children`)
+            write: Arc::new(move || {
+                value.writer().map(|writer| {
+                    StoreFieldWriter::new(WriteGuard::new(value, writer))
+                })
+            }),
             keys: Arc::new(move || value.keys()),
             track_field: Arc::new(move || value.track_field()),
         }
@@ -162,9 +170,17 @@ where
                 let value = value.clone();
                 move || value.reader().map(StoreFieldReader::new)
             }),
+            // see `From<Store<T, S>>` above
             write: Arc::new({
                 let value = value.clone();
-                move || value.writer().map(StoreFieldWriter::new)
+                move || {
+                    value.writer().map(|writer| {
+                        StoreFieldWriter::new(WriteGuard::new(
+                            value.clone(),
+                            writer,
+                        ))
+                    })
+                }
             }),
             keys: Arc::new({
                 let value = value.clone();
